@@ -297,6 +297,10 @@ pub fn u32_boundary() -> Vec<i64> {
             v.push(b << (8 * lane));
         }
     }
+    // round amounts of time in milliseconds and in hundredths (1 s, 1 min, 1 h, 1 day) and their neighbours
+    for t in [100u64, 1000, 6000, 60_000, 360_000, 3_600_000, 8_640_000, 86_400_000, 600_000, 36_000] {
+        v.extend([t - 1, t, t + 1]);
+    }
     v.extend([
         0x01020304,
         0x04030201,
